@@ -327,7 +327,7 @@ def r081(prog, chk):
                 for c in A.calls_in(st):
                     if A.callee_name(c) not in ("add",):
                         return False, f"unexpected {T(c)}"
-                if not isinstance(st, ast.Expr):
+                if not isinstance(st, (ast.Expr, ast.Pass)):
                     return False, "non-expression statement in the combinations loop"
             return True, "loop body only does adjacency[x].add(y)"
         return False, "loop not found"
